@@ -9,9 +9,11 @@ mv $demo /tmp/seed_demo_aside.$$
 suite=$(cargo test --workspace --no-fail-fast --offline 2>&1 | grep -E "^test result" | awk '{p+=$4; f+=$6} END {print p" passed "f" failed"}')
 mv /tmp/seed_demo_aside.$$ $demo
 with=$(cargo test --offline --test seed_demo 2>&1 | grep -E "^test result" | tail -1)
-git stash push -q -- src shred-derive
+# refs/stash is shared between worktrees: revert with the diff itself, never with git stash
+git diff -- src shred-derive > /tmp/seed_change.$$.diff
+git apply -R /tmp/seed_change.$$.diff
 without=$(cargo test --offline --test seed_demo 2>&1 | grep -E "^test result" | tail -1)
-git stash pop -q
+git apply /tmp/seed_change.$$.diff && rm -f /tmp/seed_change.$$.diff
 echo "suite_with_change: $suite"
 echo "demo_with_change: $with"
 echo "demo_without_change: $without"
